@@ -266,6 +266,8 @@ class State:
 def project(t, p):
     """apply a path element (field name or ('idx', term)) to a term"""
     if isinstance(p, tuple) and p[0] == 'idx':
+        if t[0] == 'agg' and t[1] == 'array' and p[1][0] == 'const' and isinstance(p[1][1], int) and 0 <= p[1][1] < len(t[2]):
+            return t[2][p[1][1]]        # `let [a, b, ..] = [x, y, ..]`
         return ('index', t, p[1])
     if t[0] == 'tryopt':
         # `x?` on an Option: the Continue payload is the Some payload, the Break payload is the `None` residual
